@@ -22,7 +22,8 @@ RULE = ('generated (m,t,PRSS) [35% m=1 for value-space bulk; else progs.config()
         'thorough ..10), and 2-3 operation compositions (arithmetic, with division, with sin/cos, with comparison/abs/min/'
         'if_else); operands log-uniform with extremes (0, +-1 unit, +-1.0, +-max, min, around 2^k), whole and non-whole, '
         'flagged or not, from generated senders, kept in range by construction; plus deterministic grids for every f: '
-        'divisors 2^k-1, 2^k, 2^k+1 with the largest fitting numerator, sin/cos at multiples of pi/4 and at |a|=32. '
+        'divisors 2^k-1, 2^k, 2^k+1 with the largest fitting numerator, sin/cos at multiples of pi/4 and at |a|=32; '
+        'mpc.prod of 3-4 factors in every mixed whole/non-whole pattern. '
         'Oracle: exact Fractions; tolerance = literal clause of the statement on exact operands (1 unit; 2(1+|x|); '
         '16(1+|x|); 4 units vs exact sin/cos; floor-or-ceiling; n(1+|x|)^(n-1)), interval-propagated through compositions; '
         'every created secure value is opened (raw) and all parties must agree. non-trivial = t>=1 and at least one '
@@ -102,6 +103,24 @@ def enumerate_cases(tier):
         for i in range(0, len(recs), 16):
             yield dict(m=3, t=1, prss=bool((i // 16) % 2), l=l, f=f, seed=l + i, recs=recs[i:i + 16])
         yield dict(m=5, t=2, prss=True, l=l, f=f, seed=l, recs=recs[::9])
+
+    # mpc.prod of 3 and 4 factors, every whole/non-whole pattern with both kinds present (whole factors carry the
+    # integral flag): the pairwise tree keeps a flag per partial product and must truncate every non-whole one
+    import itertools
+    for f in (4, 8, 13):
+        one = 1 << f
+        l = 4 * f
+        recs = []
+        for k in (3, 4):
+            for pat in itertools.product((True, False), repeat=k):
+                if all(pat) or not any(pat):
+                    continue
+                fac = [['s', (2 + i % 2) * one, i % 3, True] if w else ['s', (-1) ** i * ((one * 7) // 10 + 3 * i + 1), i % 3, False]
+                       for i, w in enumerate(pat)]
+                recs.append(['prod', ['list'] + fac])
+        for i in range(0, len(recs), 10):
+            yield dict(m=1, t=0, prss=True, l=l, f=f, seed=f + i, recs=recs[i:i + 10])
+        yield dict(m=3, t=1, prss=bool(f % 2), l=l, f=f, seed=f, recs=recs[1::4])
 
 
 def strategy(tier):
